@@ -13,7 +13,7 @@ ID = 'C11'
 LEVEL = 'model_checking'
 RULE = ('every grammar sentence (clause or directive) with <= N tokens over one representative per token class, each '
         'with every token replaced by the other members of its lexical class, plus boundary families enumerated '
-        'completely: numeral spellings (0 00 01 007 10 123 20 digits) x 5 term positions; characters outside the lexicon (byte order marks, zero-width space, NUL, ^Z, no-break space) as first / last / only character; numerals of 50 .. 9000 digits (around Python\'s limit of 4300 digits); 16 variable names that are '
+        'completely: numeral spellings (0 00 01 007 10 123 20 digits) x 5 term positions; characters outside the lexicon (byte order marks, zero-width space, NUL, ^Z, no-break space) as first / last / only character; sources of 1 and 2 MiB with clauses around the MiB marks; 14 hostile source file NAMES with debug_filename on (lone surrogates, line breaks, NUL, coding declarations, 300 characters); numerals of 50 .. 9000 digits (around Python\'s limit of 4300 digits); 16 variable names that are '
         'Python constants / engine names / loop-variable look-alikes x 4 clause shapes; 24 predicate names (Python '
         'keywords, suffix look-alikes, quoted names with spaces, operators, digits, non-ASCII, empty) as clause head; '
         'bodies that cannot succeed; one predicate name spelled in several ways; 26 words of the target language (yield, return, pass, doBreak, ...) as atoms, functor names and goal names in succeeding and never-succeeding clauses; conjunction length 1..30, a grid of mixed sizes (0..20 goals x if-then-else nested 0..12 deep x 0/4/9 structured head arguments; 1..25 negated goals; 1..9 if-then-else goals in sequence), head arity 0..40, term nesting 1..120, list length '
@@ -54,6 +54,12 @@ def families():
     for a_, b_ in (('colour', "'colour'"), ("'colour'", 'colour'), ("'it\\'s'", "'it\\'s'"), ('[]', "'[]'")):
         out += [('spellings', t) for t in ('%s(red).\n%s(green).\n' % (a_, b_), '%s(red).\nother(x).\n%s(green).\n%s(blue).\n' % (a_, b_, a_),
                                           '%s(X) :- %s(X, y).\n%s(a, y).\n%s(b, y).\n' % (a_, b_, a_, b_))]
+    # sources of more than 1 and 2 MiB (comment lines as filling), clauses at the start, around the MiB marks
+    # and at the very end: every clause is compiled, through the string API and through the file API
+    for mib in (1, 2):
+        fill = '% ' + 'x' * 62 + '\n'
+        nlines = (mib << 20) // len(fill)
+        out.append(('huge-source', 'first(a).\n' + fill * (nlines - 2) + 'before_mark(b).\n' + fill * 4 + 'after_mark(c).\n' + fill * 200 + 'last(d).\n'))
     vs = ['X', 'True', 'False', 'None', 'ATOM_NIL', 'Query', 'L1', 'Arg1', '_x', '__', '_1', 'X_y', 'DoBreak', 'CutIf1',
           'Yield', '__builtins__', '_L1', 'Unify']
     for v in vs:
@@ -267,11 +273,41 @@ def _process(acc, index, tag, text):
         acc.n['transitions'] += 2
 
 
+# ---- the source file NAME is text from outside too -------------------------------------------------
+# With debug_filename the name of the source reaches the output (as a comment): whatever the name is,
+# what the compiler returns still loads and defines the program's predicates.
+HOSTILE_FILE_NAMES = ['prog.pl', 'caf\udce9.pl', 'a\nb.pl', 'a\rb.pl', 'x\x00y.pl', '\u00fc\u4e94.pl', 'coding: utf_7 .pl', 'n' * 300 + '.pl',
+                      "it's \"quoted\".pl", 'tab\there.pl', 'sep\u2028here.pl', '', '-', '#!shebang']
+
+
+def check_file_name(name, text):
+    class NCtx(impl.Ctx):
+        debug_filename = True
+        current_source_file = name
+    try:
+        out = impl.compiler.compile_prolog_from_string(text, NCtx)
+    except Exception as e:  # noqa: BLE001
+        return ('ok', None, None, ('rejected', type(e).__name__))
+    yp = impl.YP()
+    before = set(yp.eval_context)
+    try:
+        yp.load_script_from_string(out, fn=impl.SCRIPT_FN)
+    except Exception as e:  # noqa: BLE001
+        return ('violation', 'file-name:accepted-but-not-loadable:' + type(e).__name__,
+                'source file name %r (debug_filename on), text %r: the compiler returned text that does not load: %r' % (name, text, e), None)
+    added = sorted(set(yp.eval_context) - before)
+    r = rg.analyse(text)
+    want = sorted(set('%s_%d' % h for h in r.heads))
+    if added != want:
+        return ('violation', 'file-name:defined-predicates-differ', 'source file name %r (debug_filename on), text %r: loading adds %s, the clause heads are %s' % (name, text, added, want), None)
+    return ('ok', None, None, ('loaded-with-file-name', len(added)))
+
+
 NSH = 32
 
 
 def plan(tier):
-    return [(tier, kind, k, NSH) for kind in ('seeds', 'families') for k in range(NSH)]
+    return [(tier, kind, k, NSH) for kind in ('seeds', 'families') for k in range(NSH)] + [(tier, 'names', 0, 1)]
 
 
 def run_shard(spec):
@@ -290,6 +326,19 @@ def run_shard(spec):
 def _run_shard(spec):
     tier, kind, k, n = spec
     acc = Acc()
+    if kind == 'names':
+        for ni, name in enumerate(HOSTILE_FILE_NAMES):
+            for ti, text in enumerate(('foo(a).\n', 'p(X) :- q(X), \\+ r(X).\nq(b).\n')):
+                acc.n['evaluations'] += 1
+                acc.n['validated'] += 1
+                acc.n['transitions'] += 2
+                st, sig, detail, outcome = check_file_name(name, text)
+                if st == 'violation':
+                    acc.violation(sig, (2, ni, ti), {'file_name': name, 'text': text}, detail, key='name|%d|%d' % (ni, ti))
+                else:
+                    acc.outcome(outcome)
+                    acc.n['nontrivial'] += 1
+        return acc
     if kind == 'seeds':
         maxtok = 7 if tier == 'quick' else 9
         for idx, kinds in enumerate(c10.seeds(maxtok)):
@@ -318,6 +367,9 @@ for _k, _v in list(c10.CLASS_MEMBERS.items()):
 
 
 def replay(case):
+    if 'file_name' in case:
+        st, sig, detail, _ = check_file_name(case['file_name'], case['text'])
+        return [(sig, detail)] if st == 'violation' else []
     if case.get('previous') is not None:
         import shutil
         import tempfile
